@@ -686,10 +686,8 @@ func kindOps(pre string, v reflect.Value) {
 			P(pre + " recv-closed " + Dump(x) + " ok=" + b2s(ok))
 		}
 	case reflect.Func:
+		// generated func values are described but not called: the property is about calling methods
 		P(pre + " nil=" + b2s(v.IsNil()))
-		if !v.IsNil() {
-			callAndPrint(pre+" call", v)
-		}
 	}
 }
 
